@@ -395,6 +395,37 @@ theorem C04_fd_shape_axes (c : FDCfg) (shape : List Nat) (axes : List Nat) (hpos
       = mulVec (fdNdMatrix c (axes.map (axisSpec shape))) (prodL shape) x i :=
   fdNd_shape_axes c shape axes hpos hax x i hi
 
+/-- `normalize_axes`: an accepted `axes` argument denotes the list of positions `pyIx ndim a` (negative values
+    count from the end), all inside the shape and pairwise different — exactly the hypotheses of
+    `C04_fd_shape_axes`; `None` denotes all axes; in-range distinct axes are accepted. -/
+theorem C04_norm_axes (nd : Nat) (axes : Option (List Int)) (l : List Nat) (h : normAxes nd axes = some l) :
+    (∀ a ∈ l, a < nd) ∧ l.Nodup ∧ (axes = none → l = List.range nd) ∧ (∀ ax, axes = some ax → l = ax.map (pyIx nd)) := by
+  cases axes with
+  | none =>
+    simp only [normAxes, Option.some.injEq] at h
+    subst h
+    exact ⟨fun a ha => List.mem_range.mp ha, List.nodup_range, fun _ => rfl, fun ax hax => (by cases hax)⟩
+  | some ax =>
+    simp only [normAxes] at h
+    split at h
+    · cases h
+    · split at h
+      · rename_i hall
+        split at h
+        · rename_i hnd
+          simp only [Option.some.injEq] at h
+          subst h
+          refine ⟨?_, hnd, fun h' => (by cases h'), fun ax' h' => (by cases h'; rfl)⟩
+          intro a ha
+          obtain ⟨z, hz, rfl⟩ := List.mem_map.mp ha
+          have := (List.all_eq_true.mp hall) z hz
+          simp only [decide_eq_true_eq] at this
+          unfold pyIx; split <;> omega
+        · cases h
+      · cases h
+
+example : normAxes 3 (some [0, -1]) = some [0, 2] := by decide
+example : normAxes 2 (some [-5]) = none ∧ normAxes 2 (some [0, -2]) = none ∧ normAxes 2 (some []) = none := by decide
 example : [0, 1].map (axisSpec [2, 3]) = [(1, 2, 3), (2, 3, 1)] := by decide
 -- non-vacuity of the hypotheses of `C04_fd_multi_axis`: shape (2,3), both axes
 example : ∀ s ∈ [(1, 2, 3), (2, 3, 1)], s.1 * s.2.1 * s.2.2 = 6 ∧ 0 < s.2.1 := by decide
